@@ -151,6 +151,8 @@ def encode(asc, style):
                         x = nid("n")
                         xmlid[(pi, n["id"])] = x
                         acc = ACCID[n["alter"] or 0]
+                        if acc is None and style.get("naturals") and ids[0] % 2 == 0:
+                            acc = "n"  # an explicit natural sign
                         out.append('<note xml:id="%s"%s pname="%s" oct="%d"%s/>' % (x, dattr, n["step"].lower(), n["octave"], ' accid="%s"' % acc if acc else ""))
                         expected[k]["notes"].append((q, d_q, n["step"], n["alter"] or 0, n["octave"], False, li + 1))
                     else:
@@ -159,6 +161,8 @@ def encode(asc, style):
                             x = nid("n")
                             xmlid[(pi, n["id"])] = x
                             acc = ACCID[n["alter"] or 0]
+                            if acc is None and style.get("naturals") and ids[0] % 3 == 0:
+                                acc = "n"
                             out.append('<note xml:id="%s" pname="%s" oct="%d"%s/>' % (x, n["step"].lower(), n["octave"], ' accid="%s"' % acc if acc else ""))
                             expected[k]["notes"].append((q, d_q, n["step"], n["alter"] or 0, n["octave"], False, li + 1))
                         out.append("</chord>")
